@@ -38,16 +38,37 @@ int gv_exc;
 /* a canary only in the checks whose harness reaches the function */
 #define GV_CANARY_IF(flag, tag) do { if (flag) GV_CANARY(tag); } while (0)
 
+/* Precondition of an operation of the code under check: reported (assert) and then the path ends (assume), so that an
+   out-of-range access is ONE failed obligation and not a cascade of garbage values (which would also trip the unwinding
+   assertions and turn the verdict into "undecided").  Asserts first: cannot hide behaviour. */
+#define GV_STOP_UNLESS(c, msg) do { __CPROVER_assert(c, msg); __CPROVER_assume(c); } while (0)
+#ifndef GV_GUARD_DEREF
+#define GV_GUARD_DEREF 1
+#endif
+#ifndef GV_GUARD_INDEX
+#define GV_GUARD_INDEX 1
+#endif
+#if GV_GUARD_DEREF
+#define GV_DEREF(p) GV_STOP_UNLESS(__CPROVER_r_ok((p), sizeof(*(p))), "iterator is dereferenced inside its list")
+#else
+#define GV_DEREF(p) ((void)0)
+#endif
+#if GV_GUARD_INDEX
+#define GV_INDEX_OK(L, i, msg) GV_STOP_UNLESS(0 <= (i) && (i) < IntegerList_dim(L), msg)   /* IntegerList_dim: below */
+#else
+#define GV_INDEX_OK(L, i, msg) ((void)0)
+#endif
+
 /* ---- STUB std::stack<Index> (callee; assumed: LIFO of capacity GV_NMAX, which suffices because a node is pushed
         only when its tag changes 0 -> 1; pushing beyond the capacity / popping an empty stack is an assertion) ---- */
 struct gv_stack { Index a[GV_NMAX + 1]; int n; };
 static void  gv_stack_init(struct gv_stack *s) { s->n = 0; }
 static void  gv_stack_push(struct gv_stack *s, Index v)
-{ __CPROVER_assert(s->n < GV_NMAX + 1, "std::stack stub: capacity (bound) not exceeded"); s->a[s->n] = v; s->n = s->n + 1; }
+{ GV_STOP_UNLESS(s->n < GV_NMAX + 1, "std::stack stub: capacity (bound) not exceeded"); s->a[s->n] = v; s->n = s->n + 1; }
 static Index gv_stack_top(const struct gv_stack *s)
-{ __CPROVER_assert(s->n > 0, "std::stack::top on a non-empty stack"); return s->a[s->n - 1]; }
+{ GV_STOP_UNLESS(s->n > 0, "std::stack::top on a non-empty stack"); return s->a[s->n - 1]; }
 static void  gv_stack_pop(struct gv_stack *s)
-{ __CPROVER_assert(s->n > 0, "std::stack::pop on a non-empty stack"); s->n = s->n - 1; }
+{ GV_STOP_UNLESS(s->n > 0, "std::stack::pop on a non-empty stack"); s->n = s->n - 1; }
 static bool  gv_stack_empty(const struct gv_stack *s) { return s->n == 0; }
 
 /* ---- STUB std::pair<Index,Index>, std::vector<Pair>, std::sort, std::swap (callees) ---- */
@@ -61,7 +82,7 @@ static bool gv_pair_less(gv_pair a, gv_pair b)              /* std::pair operato
 struct gv_vector { gv_pair a[GV_VCAP]; int n; };
 static void gv_vector_init(struct gv_vector *v) { v->n = 0; }
 static void gv_vector_push_back(struct gv_vector *v, gv_pair p)
-{ __CPROVER_assert(v->n < GV_VCAP, "std::vector stub: capacity (bound) not exceeded"); v->a[v->n] = p; v->n = v->n + 1; }
+{ GV_STOP_UNLESS(v->n < GV_VCAP, "std::vector stub: capacity (bound) not exceeded"); v->a[v->n] = p; v->n = v->n + 1; }
 static gv_pair *gv_vector_begin(struct gv_vector *v) { return v->a; }
 static gv_pair *gv_vector_end(struct gv_vector *v) { return v->a + v->n; }
 /* std::sort stub: insertion sort (assumed contract of std::sort: the range becomes a sorted permutation of itself) */
@@ -84,7 +105,7 @@ static void gv_set_insert(struct gv_set *s, gv_pair p)
   int k = 0;
   while (k < s->n && gv_pair_less(s->a[k], p)) k++;
   if (k < s->n && !gv_pair_less(p, s->a[k])) return;       /* already present */
-  __CPROVER_assert(s->n < GV_SCAP + 1, "std::set stub: capacity (bound) not exceeded");
+  GV_STOP_UNLESS(s->n < GV_SCAP + 1, "std::set stub: capacity (bound) not exceeded");
   for (int j = s->n; j > k; j--) s->a[j] = s->a[j - 1];
   s->a[k] = p;
   s->n = s->n + 1;
@@ -100,12 +121,6 @@ static Index IntegerList_dim(const struct IntegerList *self)
   __CPROVER_assert(SAME(self->e, self->m), "IntegerList::dim contract: m and e point into one object (or both are null)");
   return (Index)((OFF(self->e) - OFF(self->m)) / (long)sizeof(Index));
 }
-
-/* Precondition of an operation of the code under check: reported (assert) and then the path ends (assume), so that an
-   out-of-range access is ONE failed obligation and not a cascade of garbage values (which would also trip the unwinding
-   assertions and turn the verdict into "undecided").  Asserts first: cannot hide behaviour. */
-#define GV_STOP_UNLESS(c, msg) do { __CPROVER_assert(c, msg); __CPROVER_assume(c); } while (0)
-#define GV_DEREF(p) GV_STOP_UNLESS(__CPROVER_r_ok((p), sizeof(*(p))), "iterator is dereferenced inside its list")
 
 /* iterator inequality inside one list: the same comparison on offsets (constant-folded by symbolic execution) */
 static bool gv_ptr_ne(const void *p, const void *q)
@@ -135,10 +150,10 @@ GV_CANARY("IntegerList_set_zero entry");
 GV_CANARY("IntegerList_cbegin entry");
 //@ entry IntegerList_get
 GV_CANARY("IntegerList_get entry");
-GV_STOP_UNLESS(0 <= i && i < IntegerList_dim(self), "IntegerList::operator()(i) const: 0 <= i < dim()");
+GV_INDEX_OK(self, i, "IntegerList::operator()(i) const: 0 <= i < dim()");
 //@ entry IntegerList_at
 GV_CANARY("IntegerList_at entry");
-GV_STOP_UNLESS(0 <= i && i < IntegerList_dim(self), "IntegerList::operator()(i): 0 <= i < dim()");
+GV_INDEX_OK(self, i, "IntegerList::operator()(i): 0 <= i < dim()");
 //@ entry Adjacency_nodes
 GV_CANARY("Adjacency_nodes entry");
 //@ entry Adjacency_degree
@@ -401,12 +416,19 @@ void h_rcm(void)
    xadj non-decreasing, xadj(nodes+1) == adjncy.dim(), and row x of it must list EXACTLY the neighbours of x (here:
    strictly ascending, hence each once), which also makes it symmetric.
    Matrices are enumerated (constant data per path) because adjncy is allocated with the computed size edges.size().
-   Row k stores column j iff bit (k-1)*cols + (j-1) of pat is set; with dup every stored entry is written twice. */
+   Row k stores column j iff bit (k-1)*cols + (j-1) of pat is set; with dup every stored entry is written twice.
+   Slices by -D: rows GV_RLO..GV_RHI, columns GV_CLO..GV_CHI, patterns GV_PLO..GV_PHI (clipped to those that exist). */
 #ifndef GV_RLO
 #define GV_RLO 0
 #define GV_RHI 2
 #define GV_CLO 0
 #define GV_CHI 3
+#endif
+#ifndef GV_PLO
+#define GV_PLO 0u
+#endif
+#ifndef GV_PHI
+#define GV_PHI 511u
 #endif
 #define GV_CMAX 3
 #define GV_RMAX 3
@@ -485,7 +507,7 @@ void h_ctor(void)
   __CPROVER_assume(GV_RLO <= r_s && r_s <= GV_RHI && GV_CLO <= c_s && c_s <= GV_CHI);
   for (Index r = GV_RLO; r <= GV_RHI; r++)
     for (Index c = GV_CLO; c <= GV_CHI; c++)
-      for (unsigned pat = 0; pat < (1u << (r * c)); pat++)
+      for (unsigned pat = GV_PLO; pat <= GV_PHI && pat < (1u << (r * c)); pat++)
         if (r == r_s && c == c_s && pat == p_s)
           {
             if (d_s) run_ctor(r, c, pat, 1); else run_ctor(r, c, pat, 0);
